@@ -214,7 +214,21 @@ let () =
                       (string_of_z p.Records.pr_cases) (String.concat "," (List.map mr p.Records.pr_methods)))
                     (Records.pics_info im))) in
            let fuel = ImageSem.max_depth ms in
-           let counts = String.concat " " (List.mapi (fun i (m : Generator.coq_method) ->
+           (* ImageSem.count_method / need_method recurse over the call TREE: their cost is the number of call
+              paths, which explodes for deep, call-dense images.  The number of paths is computed first (memoised,
+              cheap); above a budget the counts are not printed for this job (the judge then has nothing to
+              compare for it - recorded in the evidence as fewer model_static_counts_compared). *)
+           let marr = Array.of_list ms in
+           let nm = Array.length marr in
+           let memo = Array.make nm (-1.0) in
+           let rec paths depth i =
+             if i < 0 || i >= nm || depth > 64 then 1.0 else
+             if memo.(i) >= 0.0 then memo.(i) else begin
+               let r = List.fold_left (fun a cal -> a +. paths (depth + 1) (nat_to_int cal)) 1.0 marr.(i).Generator.m_callees in
+               memo.(i) <- r; r end in
+           let total = ref 0.0 in
+           for i = 0 to nm - 1 do total := !total +. paths 0 i done;
+           let counts = if !total > 3.0e6 then "" else String.concat " " (List.mapi (fun i (m : Generator.coq_method) ->
                Printf.sprintf "%s:%s:%s" (string_of_z m.Generator.m_addr)
                  (string_of_z (ImageSem.count_method cfg ms fuel (nat_of_int i)))
                  (string_of_z (ImageSem.need_method cfg ms fuel (nat_of_int i)))) ms) in
